@@ -291,6 +291,8 @@ def panic_class(msg):
 
 
 def f64_bits(x):
+    if x is None:
+        return "not-finite"      # the harness prints NaN / infinity as null
     return struct.unpack("<Q", struct.pack("<d", x))[0]
 
 
